@@ -67,6 +67,57 @@ fn extra_funds_of(ev: &Event, denom_key: &str) -> u128 {
         .sum()
 }
 
+/// Several swaps on one pair inside one transaction (a route that re-uses a pair): replay them
+/// in order from the pair's reported (offer asset, offer amount, return amount) against the
+/// pre-state reserves. True iff the sequence reproduces the observed post-state reserves, at
+/// least one swap pays more than y*a/(x+a), and every such swap lies in the ceil18 window with
+/// a payout of at most ceil(g) — i.e. the step is fully explained by the known finding.
+pub fn multi_swap_in_window(ctx: &Ctx, p: &PairModel) -> bool {
+    let attrs = wasm_attrs(ctx.outcome.responses(), &p.addr, "swap");
+    let swaps = ok_dispatches(ctx.trace, &p.addr, &SWAP_KINDS).len();
+    let others = ok_dispatches(ctx.trace, &p.addr, &PROVIDE_KINDS).len()
+        + ok_dispatches(ctx.trace, &p.addr, &WITHDRAW_KINDS).len();
+    if swaps < 2 || attrs.len() != swaps || others != 0 || matches!(ctx.ev.op, Op::Batch(_)) {
+        return false;
+    }
+    let mut r = [ctx.view.pre(&p.keys[0], &p.addr), ctx.view.pre(&p.keys[1], &p.addr)];
+    let mut any_over = false;
+    for m in &attrs {
+        let offered = match m.get("offer_asset") {
+            Some(s) => s.clone(),
+            None => return false,
+        };
+        let side = match (0..2).find(|i| p.infos[*i].to_string() == offered) {
+            Some(i) => i,
+            None => return false,
+        };
+        let (a, paid) = match (attr_u128(m, "offer_amount"), attr_u128(m, "return_amount")) {
+            (Some(a), Some(b)) => (a, b),
+            _ => return false,
+        };
+        let (x, y) = (r[side], r[1 - side]);
+        let over = &n(paid) * &(&n(x) + &n(a)) > &n(y) * &n(a);
+        if over {
+            let (w, ceil_g) = ceil18_window(x, y, a);
+            if !w || n(paid) > ceil_g {
+                return false;
+            }
+            any_over = true;
+        }
+        r[side] = match r[side].checked_add(a) {
+            Some(v) => v,
+            None => return false,
+        };
+        r[1 - side] = match r[1 - side].checked_sub(paid) {
+            Some(v) => v,
+            None => return false,
+        };
+    }
+    let post = [ctx.view.post(&p.keys[0], &p.addr), ctx.view.post(&p.keys[1], &p.addr)];
+    // a receiver that is the pair itself returns the payout to the pool: accept post >= replay
+    any_over && post[0] >= r[0] && post[1] >= r[1] && (post[0] == r[0] || post[1] == r[1])
+}
+
 pub fn swap_facts(ctx: &Ctx, p: &PairModel) -> Option<SwapFacts> {
     let swaps = ok_dispatches(ctx.trace, &p.addr, &SWAP_KINDS).len();
     let others = ok_dispatches(ctx.trace, &p.addr, &PROVIDE_KINDS).len()
@@ -218,6 +269,7 @@ fn c03_share_value(ctx: &Ctx, cov: &mut Cover) {
         if lhs < rhs {
             let cause = match swap_facts(ctx, p) {
                 Some(f) if f.window == "ceil18-window" => "ceil18-window",
+                None if multi_swap_in_window(ctx, p) => "ceil18-window",
                 _ => "share-value-decreased",
             };
             cov.violate(
@@ -300,6 +352,9 @@ fn c01_swaps(ctx: &Ctx, cov: &mut Cover) {
         );
         let cause = if window == "ceil18-window" {
             cov.reach("C01.ceil18_window_hit");
+            "ceil18-window"
+        } else if facts.is_none() && multi_swap_in_window(ctx, p) {
+            cov.reach("C01.ceil18_window_hit_multi_swap");
             "ceil18-window"
         } else {
             "overpaid"
